@@ -53,8 +53,8 @@ Proof. induction g as [|g IH]; intros; cbn [format_loop]; sm. Qed.
 Theorem format_never_panics input : format input <> PPanic.
 Proof.
   unfold format. intros E.
-  pose proof (safe_format_loop (2 * (length input + 3) + 8) [] false false) as H.
-  specialize (H {| rs := next_results (length input + 3)
+  pose proof (safe_format_loop (2 * (length input + margin) + 8) [] false false) as H.
+  specialize (H {| rs := next_results (length input + margin)
                       {| buf := {| rest := input; lastByte := None; lastRune := None; failing := false |}; errs := [] |};
                    cur := tok0; keep := false; perrs := [] |}).
   cbn [rs] in H. specialize (H (next_results_no_np _ _)). rewrite E in H. exact H.
@@ -67,7 +67,7 @@ Definition noerr_m {A} (m : M A) : Prop := forall s, m s <> PErr.
 Lemma ne_ret {A} (a : A) : noerr_m (ret a). Proof. intros s. discriminate. Qed.
 Lemma ne_nofuel {A} : noerr_m (@nofuel A). Proof. intros s. discriminate. Qed.
 Lemma ne_bind {A B} (m : M A) (f : A -> M B) : noerr_m m -> (forall a, noerr_m (f a)) -> noerr_m (bind m f).
-Proof. intros Hm Hf s. unfold bind. specialize (Hm s). destruct (m s) as [a s'| | |]; try discriminate; [apply Hf|congruence]. Qed.
+Proof. intros Hm Hf s. unfold bind. specialize (Hm s). destruct (m s) as [a s'| | | |]; try discriminate; [apply Hf|congruence]. Qed.
 Lemma ne_p_next : noerr_m p_next.
 Proof. intros s. unfold p_next. destruct (keep s); [discriminate|]. destruct (rs s) as [|[t e|e|] r]; discriminate. Qed.
 Lemma ne_p_unnext : noerr_m p_unnext. Proof. intros s. discriminate. Qed.
